@@ -6,13 +6,20 @@ from vlib import cz, czl, tolq
 LEVEL_TEXT = ("Coq theorems (abstract field with conjugation, any length and order) about the model of arburg: AR vector = step-up "
               "polynomial of the reflection coefficients, rho = mean power * prod(1-|k|^2), nesting, 'criterion => plain Burg of "
               "some order q<=p', the recursive denominator equals the stage energy and each k minimises it (E(q)-E(k)=den|q-k|^2); in the abstract "
-              "ordered *-field (Gaussian rationals and C are models): |k_m|^2<=1 by Cauchy-Schwarz, rho>=0 and non-increasing. "
+              "ordered *-field (Gaussian rationals and C are models): |k_m|^2<=1 by Cauchy-Schwarz, rho>=0 and non-increasing, and STABILITY: "
+              "every root of the returned polynomial (in the field; in any order-preserving ordered extension; for data in the Gaussian "
+              "rationals or in C: every complex root, Cmod z < 1) lies in the open unit disc, with or without a criterion; returned models "
+              "have rho_m > 0 and |k_m| < 1 strictly (proof: a = stepup(k) and the code's rho<=0 tests make the inverse-Levinson lags of "
+              "(rho_0, k) positive definite by the converse of levinson_pd; then C12's pd_root_inside). "
               "Tie: exact in-Coq correspondence with arburg/_arburg2 on dyadic inputs (incl. criteria), search on the implementation.")
 TRUSTED = ["Coq 8.16.1 kernel + vm_compute", "hand-written model coq/Model/Burg.v (tie = correspondence run)",
            "criteria with logarithms (AIC, AICc, KIC, AKICc, MDL) enter the model as an abstract stop rule; in the correspondence "
            "run the harness recomputes the stop index from its own formulas; FPE is modelled exactly",
+           "arburg_stable_complex / arburg_stable_C only: the three standard-library axioms of the real numbers (sig_forall_dec, sig_not_dec, "
+           "functional_extensionality_dep) via Coquelicot's C; every other theorem is axiom-free",
            "Python harness"]
-UNPROVED = ["stability of the step-up polynomial (root location needs an algebraically closed field): search only"]
+UNPROVED = ["nothing of the statement in exact arithmetic; rounding of the binary64 code is outside the theorems (correspondence within "
+            "1e-9*kappa and search, incl. numpy.roots of the returned polynomial)"]
 ASSUMPTIONS = ["exact arithmetic", "non-degenerate stages (denominator non-zero) as in the property statement"]
 RULE = ("real/complex low-bit dyadic data N=4..12, orders 1..5 exactly in Coq (with and without criteria); noise, tones in noise, "
         "integer data N=4..200, orders up to 30 in the search; non-trivial = order>=2 and non-constant data")
@@ -125,7 +132,17 @@ def check_criteria(x, p, name, tag):
     else:
         a2, rho2, k2 = arburg(x, q)
         ok = np.allclose(a, a2, rtol=1e-9, atol=1e-12) and np.allclose(k, k2, rtol=1e-9, atol=1e-12) and abs(rho - rho2) <= 1e-9 * abs(rho2)
-    return [] if ok else [('burg_criteria/arburg/%s/%s' % (name, tag), 'result with criterion is not the Burg model of order %d' % q)]
+    bad = [] if ok else [('burg_criteria/arburg/%s/%s' % (name, tag), 'result with criterion is not the Burg model of order %d' % q)]
+    if q >= 1:
+        # arburg_stable_criteria / arburg_k_lt_1: the returned polynomial (degree q) is stable, rho > 0
+        rho0 = np.sum(np.abs(x) ** 2) / len(x)
+        if not rho > 0:
+            bad.append(('burg_rho_pos/arburg/%s/%s' % (name, tag), 'returned variance is not positive'))
+        elif rho0 / rho < 1e6 and np.all(np.abs(k) < 1 - 1e-9):
+            roots = np.roots(np.concatenate(([1], a)))
+            if np.any(np.abs(roots) >= 1 + 1e-8):
+                bad.append(('burg_stable/arburg/%s/%s' % (name, tag), 'root outside the unit disc (model selected by the criterion)'))
+    return bad
 
 
 def replay(rep):
